@@ -4,6 +4,8 @@
 (* 0 = a name that is in no archive), whether the call returned Ok, and the slots that came back.      *)
 (* The expected return value is ParExtract!ExpectedFrom -- the value MC_ParExtract shows to be the result  *)
 (* of every schedule -- with Present bound to the files the sequential reference could read.           *)
+(* For the chain_par / chain_addpar interfaces the request is the chain the SEQUENTIAL construction produced (one   *)
+(* slot per entry + the winner of the shared name) and the observation is the chain the parallel constructor built. *)
 (* P-conjuncts: call-level result per skip flag; one slot per request; slot i names request i; slot i  *)
 (* carries the sequential answer of request i; no panic / hang.  (Which error is reported is free.)    *)
 EXTENDS ParExtract, Json, IOUtils, TLCExt
